@@ -431,6 +431,36 @@ func verifCollect[K comparable, V any](m *Map[K, V]) []Tuple[K, V] {
 //@   assigns reach(dst)
 //@   note ASSUMED: ordered.Unmarshal writes only memory reachable from dst plus new objects (it never writes src, package state or anything else)
 
+// ---- C08: a string-valued ordered map (the pipeline env block) is filled entry by entry ----
+// (*Map[string,string]).UnmarshalOrdered on an empty receiver: after a usable
+// return (nil or a warning) the receiver holds exactly the live keys of the
+// source, in the source's order, without tombstones. The values come from
+// Unmarshal (reflection, trusted frame only), so they are not part of this contract.
+//@ define usrc(src) := unbox(src, *Map[string,any])
+//@ define usableU(e) := e == nil || typeis(e, *warning.Warning)
+//@ func (*Map[string,string]).UnmarshalOrdered
+//@   requires (m != nil ==> wf(m)) && (typeis(src, *Map[string,any]) && usrc(src) != nil ==> wf(usrc(src)))
+//@   requires m != nil && typeis(src, *Map[string,any]) && usrc(src) != nil ==> m.index == nil || m.index != usrc(src).index
+//@   assigns m.index, m.items, *m.index, m.items[..], any(*warning.Warning).message
+//@   ensures [badsrc] m != nil && !typeis(src, *Map[string,any]) ==> ret != nil && !typeis(ret, *warning.Warning)
+//@   ensures [wf] m != nil ==> wf(m)
+//@   ensures [order] m != nil && typeis(src, *Map[string,any]) && usrc(src) != nil && old(len(m.items)) == 0 && usableU(ret) ==>
+//@       len(m.items) == old(len(usrc(src).index)) && len(m.index) == old(len(usrc(src).index)) &&
+//@       (forall x int :: {old(usrc(src).items[x])} 0 <= x && x < old(len(usrc(src).items)) && !old(usrc(src).items[x].deleted) ==>
+//@           m.items[old(live(usrc(src).items, x))].Key == old(usrc(src).items[x].Key) && !m.items[old(live(usrc(src).items, x))].deleted)
+//@   loop Range.0
+//@     assigns tm.index, tm.items, *tm.index, tm.items[..], warns, warns[..], any(*warning.Warning).message
+//@     invariant [shape] 0 <= $idx && $idx <= len(tsrc.items) && tm != nil && wf(tm) && (arr(tm.items) == atloop(arr(tm.items)) || loopfresh(tm.items))
+//@     invariant [sep] tm.index == nil || (tm.index != tsrc.index && (tm.index == atloop(tm.index) || loopfresh(tm.index)))
+//@     invariant [warns] fresh(warns) && (arr(warns) == atloop(arr(warns)) || loopfresh(warns))
+//@     invariant [same] tsrc != nil && tsrc.items == old(tsrc.items) && tsrc.index == old(tsrc.index) &&
+//@         (forall x int :: {tsrc.items[x]} 0 <= x && x < len(tsrc.items) ==> tsrc.items[x] == old(tsrc.items[x]))
+//@     invariant [count] old(len(tm.items)) == 0 ==> len(tm.items) == live(tsrc.items, $idx) && len(tm.index) == len(tm.items)
+//@     invariant [img] old(len(tm.items)) == 0 ==> (forall x int :: {tsrc.items[x]} 0 <= x && x < $idx && !tsrc.items[x].deleted ==>
+//@         tm.items[live(tsrc.items, x)].Key == tsrc.items[x].Key && !tm.items[live(tsrc.items, x)].deleted)
+//@     invariant [nokey] old(len(tm.items)) == 0 ==> (forall x int :: {tsrc.items[x]} $idx <= x && x < len(tsrc.items) && !tsrc.items[x].deleted ==> !has(tm.index, tsrc.items[x].Key))
+//@     decreases len(tsrc.items) - $idx
+
 //@ func quoteMergeString
 //@   requires n != nil
 //@   assigns n.Tag, n.Style
